@@ -2,4 +2,8 @@ MODULES = [
     'harness.c01',
     'harness.c09',
     'harness.c14',
+    'harness.c10',
+    'harness.c03',
+    'harness.c15',
+    'harness.c16',
 ]
